@@ -74,7 +74,11 @@ func NewHierarchicalConjunctiveThresholdAccessStructure(levels ...*ThresholdLeve
 			return nil, ErrValue.WithMessage("thresholds must be less than or equal to the number of parties")
 		}
 
-		ls = append(ls, &ThresholdLevel{l.threshold, parties.List()})
+		// canonical (sorted) order: the hash set's iteration order would otherwise leak into
+		// Levels() and into the CBOR encoding, making re-encodings differ from run to run.
+		levelParties := parties.List()
+		slices.Sort(levelParties)
+		ls = append(ls, &ThresholdLevel{l.threshold, levelParties})
 	}
 
 	h := &HierarchicalConjunctiveThreshold{levels: ls}
